@@ -28,9 +28,7 @@ never returns less than its larger argument (`logmath_add` with the decoder's ta
 **Partial:** that the integer link posteriors `alpha + beta - norm` exceed one by at most the
 accumulated table rounding is *not* proved (it needs the real-valued accuracy of the table along
 sums); it is checked on the implementation against a float64 reference with a bound accumulated per
-table addition (tools/props/c12.py).  A* is proved to emit non-increasing scores and lattice paths for
-every agenda bound; that its *first* result is a maximum over the seed set is checked by
-recomputation, not proved.
+table addition (tools/props/c12.py).
 -/
 namespace SSVerif.Lattice
 open SSVerif.Nfa
@@ -133,7 +131,7 @@ theorem seed_is_start (ok : LatticeOK G L) {u : Nat} (hu : u < L.n) (hsf : (L.no
         exfalso
         have hfin : u = L.final := (ok.markers u hu hur).resolve_left hus
         have h0 : L.nframes = 0 := by
-          have := ((ok.nodeTimes u hu).2 hur).2 hus
+          have := ((ok.nodeTimes u hu).2 hur).2.1 hus
           omega
         obtain ⟨l, hl, hd⟩ := ok.startEnd.2.1 u hu hus
         have ht := ok.linkTimes l hl
@@ -206,6 +204,77 @@ theorem C12_astar_paths_are_lattice_sentences (ok : LatticeOK G L) (k fuel : Nat
   rcases seed_is_start ok hu hsf with rfl | ⟨l0, hl0, hs0, hd0⟩
   · exact Or.inl hpath
   · exact Or.inr ⟨l0, hl0, .cons hl0 hs0 (hd0 ▸ hpath)⟩
+
+/-- **C12, the first N-best entry is a maximum over the A\* seed set.** When no remaining score
+underflows `WORST_SCORE` (`hnu`; the driver evaluates it per lattice), the first result of the A\*
+search has a score at least that of every path of the lattice from a node starting at frame 0 (the
+seed set of `astar_search_start(dag, 0, …)`: the start node and, under a synthetic start, its
+successors) to the end node — whatever the agenda bound did to other entries.  (This is *not* the
+best-path score of `lattice_bestpath` when the start is synthetic: seeded at a successor, the path
+omits the link out of `<s>`.) -/
+theorem C12_astar_first_is_max (ok : LatticeOK G L) (hnu : ∀ v, v < L.n → remTable L v > worstScore)
+    (k fuel : Nat) (p1 : APath) (rest : List APath) (h : nbest L (k + 1) fuel = p1 :: rest) :
+    ∀ u ls, u < L.n → (L.node u).sf = 0 → Path L u ls L.final → score ls ≤ p1.score := by
+  intro u ls hu hsf hp
+  obtain ⟨hcons, hfin, hatt⟩ := remTable_exact (rank := L.rank) (fun _ hl => rank_lt ok hl)
+    (fun l hl => by have := rank_le ok (ok.endpoints.2.2 l hl).1; omega)
+    (fun l hl => (ok.endpoints.2.2 l hl).1) (fun l hl => (ok.startEnd.1 l hl).2) ok.endpoints.2.1 hnu
+  have hdst : ∀ l ∈ L.links, l.dst < L.n := fun l hl => (ok.endpoints.2.2 l hl).2
+  have hatt' : RemAttained L (remTable L) := by
+    intro v hv hvf
+    obtain ⟨x, hx, he⟩ := hatt v hv hvf
+    exact ⟨x, hx, hnu _ (hdst x (mem_exits.1 hx).1), he⟩
+  have hT : score ls ≤ total (remTable L) { nodes := [u], score := 0 } := by
+    have := score_le_rem (remTable L) hcons hfin hp
+    simp only [total, APath.node, List.headD_cons]; omega
+  -- the initial agenda
+  have hseeds : ∀ v ∈ (List.range L.n).filter (fun v => (L.node v).sf = 0), v < L.n := by
+    intro v hv
+    simp only [List.mem_filter, List.mem_range] at hv
+    exact hv.1
+  have hstart := astarStart_spec (remTable L) maxPaths (fun a => a.node < L.n)
+    ((List.range L.n).filter fun v => (L.node v).sf = 0) [] (by simp [Sorted]) (by simp)
+    (fun v hv => by simp only [APath.node, List.headD_cons]; exact hseeds v hv)
+  have hwit : Wit (remTable L) (score ls) (astarStart L (remTable L) maxPaths) := by
+    have hmp : maxPaths = (maxPaths - 1) + 1 := by decide
+    unfold astarStart
+    rw [hmp]
+    apply astarStart_wit (remTable L) (maxPaths - 1) (score ls) _ [] (by simp [Sorted])
+    refine Or.inr ⟨u, ?_, hT⟩
+    simp only [List.mem_filter, List.mem_range, decide_eq_true_eq]
+    exact ⟨hu, hsf⟩
+  rw [nbest_eq] at h
+  simp only [nbestGo] at h
+  cases hn : astarNext L (remTable L) maxPaths fuel (astarStart L (remTable L) maxPaths) with
+  | none => rw [hn] at h; cases h
+  | some pa =>
+    obtain ⟨q, ag'⟩ := pa
+    rw [hn] at h
+    simp only [List.cons.injEq] at h
+    obtain ⟨rfl, _⟩ := h
+    have hmp : maxPaths = (maxPaths - 1) + 1 := by decide
+    have hcompl : ∀ p : APath, p.node < L.n → complete L p = false → p.node ≠ L.final := by
+      intro p _ hc hpf
+      unfold complete at hc
+      have := node_sf_le_all ok L.final
+      simp only [Bool.or_eq_false_iff, decide_eq_false_iff_not, Bool.and_eq_false_iff, beq_eq_false_iff_ne] at hc
+      rcases hc.2 with h | h
+      · exact h hpf
+      · omega
+    have hfef : ∀ v, v < L.n → (L.node v).fef < L.nframes + 1 := by
+      intro v hv
+      have hsfv := node_sf_le ok hv
+      cases hr : (L.node v).real with
+      | true => have := (ok.nodeTimes v hv).1 hr; omega
+      | false => have := ((ok.nodeTimes v hv).2 hr).2.2.1; omega
+    rw [hmp] at hn
+    have hfirst := astarNext_first (remTable L) hatt' (maxPaths - 1) (score ls) hcompl hfef hdst fuel _
+      hstart.1 hwit hstart.2 q ag' hn
+    -- the first result is complete: its total is its score
+    have hq : complete L q = true := astarNext_complete (remTable L) _ fuel _ q ag' hn
+    unfold total at hfirst
+    rw [complete_final ok hq, hfin] at hfirst
+    omega
 
 /-- **C12, exact forward/backward.** For every assignment of non-negative weights to the links:
 the sum of the path weights over all (duplicate-free enumerated) start→end paths equals the backward
